@@ -140,15 +140,75 @@ Proof.
     unfold rel_of in R. destruct (d_get i v) as [t|]; [eauto|tauto].
 Qed.
 
-Theorem srcm_eq_model_on_reachable3 hops m s : In m (m2m_run hops) ->
+(* ---- replace ----------------------------------------------------------------------------------- *)
+Definition repl_one (k nk : nat) (inv : sdict) (v : nat) : sdict :=
+  match d_get inv v with
+  | Some rs => d_set inv v (s_add (s_rm rs k) nk)
+  | None => inv
+  end.
+
+Lemma replace_body (d i : sdict) k nk v rs : d_get i v = Some rs -> In k rs ->
+  bind (pm_lookup (mkM d i) MInvData v) (fun _ =>
+  bind (pm_set_remove (mkM d i) MInvData v k) (fun self =>
+  bind (pm_set_add self MInvData v nk) (fun self => Ok (VNone, self)))) =
+  Ok (VNone, mkM d (repl_one k nk i v)).
+Proof.
+  intros Ei Hin. apply s_mem_In in Hin.
+  unfold pm_lookup, pm_set_remove, pm_set_add, repl_one. simpl. rewrite Ei. simpl. rewrite Hin. simpl.
+  rewrite get_set, Nat.eqb_refl, d_set_set. reflexivity.
+Qed.
+
+Lemma repl_one_get_other k nk (i : sdict) v v' : v' <> v -> d_get (repl_one k nk i v) v' = d_get i v'.
+Proof.
+  intro Hne. unfold repl_one. destruct (d_get i v); trivial.
+  rewrite get_set. destruct (Nat.eqb v' v) eqn:E; trivial. apply Nat.eqb_eq in E. congruence.
+Qed.
+
+Lemma replace_loop k nk (s : list nat) : forall (d i : sdict), NoDup s ->
+  (forall v, In v s -> exists rs, d_get i v = Some rs /\ In k rs) ->
+  pm_for s (fun self p_val =>
+    bind (pm_lookup self MInvData p_val) (fun _ =>
+    bind (pm_set_remove self MInvData p_val k) (fun self =>
+    bind (pm_set_add self MInvData p_val nk) (fun self => Ok (VNone, self))))) (mkM d i) =
+  Ok (mkM d (fold_left (repl_one k nk) s i)).
+Proof.
+  unfold pm_for. induction s as [|v r IH]; simpl; intros d i ND H; trivial.
+  destruct (H v (or_introl eq_refl)) as [rs [Ei Hin]].
+  rewrite (replace_body d i k nk v rs Ei Hin). simpl.
+  inversion ND; subst. apply IH; trivial.
+  intros v' Hv'. destruct (H v' (or_intror Hv')) as [rs' [Ei' Hin']]. exists rs'. split; trivial.
+  rewrite repl_one_get_other; trivial. intros ->. tauto.
+Qed.
+
+Theorem srcm_replace_eq m k nk : M2mInv m -> srcm_replace m k nk = Ok (VNone, m_replace m k nk).
+Proof.
+  intros [A B C]. destruct m as [d i]. simpl in *.
+  unfold srcm_replace, m_replace, pm_contains, pm_pop, d_mem. simpl.
+  destruct (d_get d k) as [fs|] eqn:Ed; simpl; trivial.
+  unfold pm_setdefault_update. simpl.
+  assert (L : forall d2, pm_for fs (fun self p_val =>
+      bind (pm_lookup self MInvData p_val) (fun _ =>
+      bind (pm_set_remove self MInvData p_val k) (fun self =>
+      bind (pm_set_add self MInvData p_val nk) (fun self => Ok (VNone, self))))) (mkM d2 i) =
+    Ok (mkM d2 (fold_left (repl_one k nk) fs i))).
+  { intro d2. apply replace_loop.
+    - now apply (swf_sets _ A k fs).
+    - intros v Hv. assert (R : rel_of i v k) by (apply C; unfold rel_of; now rewrite Ed).
+      unfold rel_of in R. destruct (d_get i v) as [t|]; [eauto|tauto]. }
+  destruct (d_get (d_rm d k) nk) as [s|] eqn:E1; simpl; rewrite L; reflexivity.
+Qed.
+
+Theorem srcm_eq_model_on_reachable4 hops m s : In m (m2m_run hops) ->
   let x := m2m_side s m in
   (forall k v, srcm_add x k v = Ok (VNone, m_add x k v)) /\
   (forall k v, srcm_remove x k v = lift_m (m_remove x k v)) /\
-  (forall k, srcm_delitem x k = lift_m (m_delitem x k)).
+  (forall k, srcm_delitem x k = lift_m (m_delitem x k)) /\
+  (forall k nk, srcm_replace x k nk = Ok (VNone, m_replace x k nk)).
 Proof.
   intros Hin x. pose proof (m2m_run_ok hops) as F. rewrite Forall_forall in F.
   pose proof (M2mInv_side s m (F m Hin)) as I. repeat split; intros.
   - apply srcm_add_eq.
   - now apply srcm_remove_eq.
   - now apply srcm_delitem_eq.
+  - now apply srcm_replace_eq.
 Qed.
